@@ -162,7 +162,8 @@ def check(ctx):
             if (c.get("rfull") or "").startswith("<header::ProtectedHeader as common::AsCborValue>::to_cbor_value"):
                 tocv_callers.append(k)
     ok_tocv = all(k.startswith("<header::ProtectedHeader as common::CborSerializable>::to_") for k in tocv_callers)
-    ctx.ob("R-4", "who-serialises", set(tovec_callers) == {cb} and ok_tocv,
+    # (cbor_bstr may equally serialise `self.header` - the same map, C07's ProtectedHeader pair - which R-3 decides)
+    ctx.ob("R-4", "who-serialises", set(tovec_callers) <= {cb} and ok_tocv,
            "ProtectedHeader::to_vec is called only by cbor_bstr, and its to_cbor_value only from that to_vec",
            detail={"to_vec_callers": sorted(set(tovec_callers)), "to_cbor_value_callers": sorted(set(tocv_callers))})
     n_slots = 0
@@ -192,8 +193,8 @@ def check(ctx):
         f = prog.fns[k]
         if f.impl_trait in ("core::clone::Clone", "core::cmp::PartialEq", "core::fmt::Debug", "core::default::Default"):
             continue
-        if k in ("header::ProtectedHeader::is_empty", "<header::ProtectedHeader as common::AsCborValue>::to_cbor_value"):
-            continue  # reached only from cbor_bstr's None edge (R-3)
+        if k in ("header::ProtectedHeader::is_empty", "<header::ProtectedHeader as common::AsCborValue>::to_cbor_value", cb):
+            continue  # reached only from cbor_bstr's None edge (R-3); what cbor_bstr itself does with the header is R-3
         for bi, b in enumerate(f.blocks):
             if b["cleanup"]:
                 continue
